@@ -173,6 +173,11 @@ def run(ck: Checker):
 
     rinit, rprobs = c15.nested_rewrap_problems(ck)
     ck.ob('C04-7', rinit, (rinit.node.lineno, 'EnsembleError members'), not rprobs, '; '.join(rprobs) if rprobs else 'every nested BaseException member of an EnsembleError is re-wrapped before the next hop')
+    # ------------------------------------------------------------------ C04-9
+    from . import c09
+
+    with ck.as_rule('C04-9', 'an element the preprocess hook rejects never reaches call(): the hook is looked up on the worker object when the service loop starts (C09-9) — cached by Worker.__init__ it is None for a subclass that installs it after super().__init__(), the rejected element then fails in call() and, with batching, takes its whole batch with it', minimum=2):
+        c09.check_preprocess_lookup(ck, 'C09-9')
     # ------------------------------------------------------------------ C04-8
     from . import c02
 
